@@ -435,7 +435,9 @@ def enum_cases(tier):
                 yield _case(_model([_top(0x2000 + dt, "v", v)], doc="dcf"), "enum/ints+limits")
     # every type x access type x case form, PDOMapping absent/0/1, ObjectType forms, DOMAIN kind
     n = 0
-    for dt in em.ALL_TYPES:
+    # TIME_OF_DAY (0x0C) and TIME_DIFFERENCE (0x0D) are standard types too (no codec in canopen: only
+    # the data type itself is compared)
+    for dt in em.ALL_TYPES + [0x0C, 0x0D]:
         for acc in em.ACCESS:
             for form in (acc, acc.upper(), acc.capitalize(), acc[:1] + acc[1:].upper()):
                 n += 1
